@@ -246,7 +246,8 @@ def r_iter_cap_agree(cx):
     unconverged result is returned as valid), and the value tested is the element as returned (not yet overwritten)."""
     import elems as E
     g = cx.f.fn("ellipsoid::geodesics::Geodesics::geodesic_inv")
-    caps = []
+    import pertuple
+    caps = []   # (cap, header of the capped loop)
     for lp in g.loops():
         for bb in sorted(lp.body):
             t = g.term(bb)
@@ -255,23 +256,20 @@ def r_iter_cap_agree(cx):
             c = g.operand(t["discr"], g.end_point(bb))
             if c[0] == "bin" and c[1] in ("Lt", "Le") and c[3][0] == "const" and isinstance(c[3][2], int) and \
                     c[2][0] in ("loopphi", "phi"):
-                caps.append((c[3][2] + (1 if c[1] == "Le" else 0), c[2]))
+                caps.append((c[3][2] + (1 if c[1] == "Le" else 0), lp.header))
+        # `for _ in a..b` with constant bounds
+        x = pertuple.iterator_entry_value(g, lp)
+        if x is not None and x[0] == "call" and isinstance(x[1], str) and x[1].endswith("into_iter"):
+            r = mir.strip_refs(x[2][0])
+            if r[0] == "agg" and "Range" in str(r[1]) and len(r[2]) == 2 and all(
+                    y[0] == "const" and isinstance(y[2], int) for y in r[2]):
+                caps.append((r[2][1][2] - r[2][0][2] + (1 if "Inclusive" in str(r[1]) else 0), lp.header))
     rt = E.return_term(g)
     es = E.elems(g, rt, None) if rt is not None else None
     counter_ok = False
     if es is not None and caps:
-        cnt = caps[0][1]
-
-        def has(x):
-            hit = []
-
-            def v(y):
-                if y == cnt:
-                    hit.append(1)
-                return True
-            mir.walk(x, v)
-            return bool(hit)
-        counter_ok = has(es[3])
+        h = caps[0][1]
+        counter_ok = bool(pertuple.mentions_loopphi(es[3], h, g))
     cx.ob("R-ITER-CAP-AGREE", "geodesic_inv/reports-count", bool(caps) and counter_ok,
           "geodesic_inv iterates under a constant cap (%s) and returns its iteration counter in element 3" % (
               caps[0][0] if caps else "?") if caps and counter_ok else
